@@ -251,8 +251,10 @@ def main(argv):
     table_check(ob)
     sympy_part(ob)
     n_sym = ob.n
+    nb0 = len(ob.bad)
     array_part(ob)
     n_arr = ob.n - n_sym
+    bounded_ids = {b[0] for b in ob.bad[nb0:]}
     res = C.pool_map(shard, [(s,) for s in O.systems()])
     n_obj = sum(r[0] for r in res)
     n = ob.n + n_obj
@@ -260,24 +262,26 @@ def main(argv):
     groups = {}
     for oid, detail in bad:
         groups.setdefault(oid.split("[")[0], []).append((oid, detail))
-    nk = 0
+    nk = nk_b = 0
     for gname, items in sorted(groups.items()):
         oid, detail = items[0]
         kf = C.match_known("C14", oid, dict(detail=str(detail)))
         if kf:
             nk += len(items)
+            nk_b += sum(1 for o, _ in items if o in bounded_ids)
             report.known_finding(oid, kf["what"])
         else:
             report.violation(oid, dict(kind="object-backend-symbolic-evaluation", failing_lattice_points=len(items), first=dict(obligation=oid, detail=detail),
                                        others=[o for o, _ in items[1:6]], replay_handler="vv.props.c14:replay"), has_input=True)
     level = "proof" if not bad else "other"
-    coverage = dict(obligations=n - nk, discharged=n - len(bad), obligations_posed=n, known_findings=nk,
-                    by_backend={"term identity (object backend on symbolic coordinates)": n_obj, "expression identity (SymPy backend)": n_sym,
-                                "run-time contract on small arrays (NumPy/Awkward; bounded)": n_arr},
+    nbad_b = sum(1 for b in bad if b[0] in bounded_ids)
+    n_p = n - n_arr          # the bounded NumPy / Awkward part is reported separately and not counted as obligations / discharged
+    coverage = dict(obligations=n_p - (nk - nk_b), discharged=n_p - (len(bad) - nbad_b), obligations_posed=n_p, known_findings=nk,
+                    by_backend={"term identity (object backend on symbolic coordinates)": n_obj, "expression identity (SymPy backend)": n_sym},
                     exhaustive=True, checker_cmd=f"./check C14 --tier {C.tier()}",
                     trusted_base=["parametricity of the object backend in its coordinate values", "SymPy expression equality", "CPython"],
-                    bounded_part=dict(obligations=n_arr, bound="arrays of 3 elements, all 20 coordinate systems, both flavors; NumPy field access and item assignment, Awkward fields",
-                                      label="bounded - run-time contract, not counted as proved beyond the enumerated arrays"),
+                    bounded_part=dict(evaluations=n_arr, failed=nbad_b, bound="arrays of 3 elements, all 20 coordinate systems, both flavors; NumPy field access and item assignment, Awkward fields",
+                                      label="BOUNDED run-time contracts - not counted in obligations / discharged"),
                     samples=[dict(obligation="C14/getter/pt==rho[rhophi,eta,tau]", status="same term"), dict(obligation="C14/setter/mass==tau[xy,z,t]", status="same object state")],
                     explanation=f"synonym table of the statement vs the library table; {n_obj} term-identity obligations over 20 systems on the object backend (getters, flavor neutrality, Et/Mt "
                                 f"spellings, 40 conversions, constructors, setters), {n_sym} on the SymPy backend, {n_arr} run-time contract evaluations on NumPy/Awkward arrays; {len(bad)} failed.")
